@@ -79,8 +79,8 @@ func pgObs(ex *px.Exchange) (string, bool) {
 }
 
 func pgRun(c *hx.Ctx, timer, aEnd, rel string) {
-	for try := 0; try < 4; try++ {
-		if pgRun1(c, timer, aEnd, rel, try == 3) {
+	for try := 0; try < 8; try++ {
+		if pgRun1(c, timer, aEnd, rel, try == 7) {
 			return
 		}
 		c.Count("pgen.retry-fresh")
